@@ -632,6 +632,8 @@ def run(ctx: Ctx) -> None:
         raise MachineryFault("model table differs from the documented table")
     cases: list[dict] = []
     for _ in range(ctx.n(140, 3000)):
+        if ctx.out_of_time():
+            break
         par = gen_par(rng)
         if not INCLUDE_OVER_THRESHOLD and F(par["thr"]) > F(1, 20):
             par["thr"] = "0"
@@ -639,6 +641,8 @@ def run(ctx: Ctx) -> None:
         cases.append({"kind": "stats", "state": gen_state(rng, 6, 3 if x > 0 else 4), "par": par})
     nd = 0
     while nd < ctx.n(90, 2000):
+        if ctx.out_of_time():
+            break
         case = gen_dist(ctx, rng)
         if case is None:
             ctx.count("skipped:too_large")
@@ -646,17 +650,23 @@ def run(ctx: Ctx) -> None:
         nd += 1
         cases.append(case)
     for _ in range(ctx.n(10, 100)):
+        if ctx.out_of_time():
+            break
         par = gen_par(rng, thr=False)
         if F(par["nu"]) == 0:
             par["nu"] = "1/2"
         cases.append({"kind": "g2", "par": par})
     for _ in range(ctx.n(10, 100)):
+        if ctx.out_of_time():
+            break
         par = gen_par(rng, thr=False)
         par["x"] = "0"
         if F(par["nu"]) == 0:
             par["nu"] = "3/4"
         cases.append({"kind": "hom", "par": par, "loss": rng.choice([0, 0, 0.25, 0.5])})
     for _ in range(ctx.n(36, 400)):
+        if ctx.out_of_time():
+            break
         args = dict(GOOD)
         for k in rng.sample(list(GOOD), rng.choice([1, 1, 2])):
             args[k] = rng.choice(BAD_VALUES)
